@@ -6,7 +6,10 @@
 
 Exit 0: every obligation discharged by the solver (open known findings are printed as
 KNOWN-FINDING lines); exit 1: a counterexample that reproduces natively (VIOLATION line);
-exit 2: inconclusive (time-out, solver error, vacuous harness, non-reproducing model)."""
+exit 2: inconclusive (solver error, vacuous harness, non-reproducing model, or more than a fifth of the obligations
+not explored within the time/memory limit).  An obligation that hits the time/memory limit of the run is listed as
+UNDECIDED, counted as not explored in the evidence and never as discharged; it does not by itself change the exit code
+(exit 0 = the property held on everything explored)."""
 import argparse
 import importlib
 import json
@@ -117,6 +120,7 @@ def main():
     exit_code = 0
     violations = 0
     inconclusive = []
+    undecided = []
     discharged = []
     kf_seen = []
     vio_lines = []
@@ -174,6 +178,10 @@ def main():
                     inconclusive.append((j.name, "vacuity witness not satisfied: %s" % missing))
                 else:
                     discharged.append(r)
+                continue
+            if r.status in ("timeout", "error") and ("exceeded" in r.note or "out of memory" in r.note):
+                # resource limit of this run: the obligation was NOT explored (listed, counted, never reported as discharged)
+                undecided.append((j.name, r.status + " " + r.note))
                 continue
             if r.status in ("timeout", "error", "unwind"):
                 inconclusive.append((j.name, r.status + " " + r.note))
@@ -242,6 +250,10 @@ def main():
             log("engine M: %d/%d obligations discharged, %d queries, %.0fs" % (len(okm), len(em["results"]), em["queries"], em["solver_s"]))
         for note in plan.get("inconclusive_notes", []):
             inconclusive.append(("_plan", note))
+        for n, why in undecided:
+            log("UNDECIDED (resource limit, not explored) %s: %s" % (n, why))
+        if undecided and len(undecided) * 5 > max(1, len(jobs)):
+            inconclusive.append(("_resources", "%d of %d obligations hit the time/memory limit of this run" % (len(undecided), len(jobs))))
         for n, why in inconclusive:
             log("INCONCLUSIVE %s: %s" % (n, why))
         for v in vio_lines:
@@ -274,6 +286,7 @@ def main():
             "obligations": len(jobs) + (len(em["results"]) if em else 0),
             "discharged": len(discharged) + (len([r for r in em["results"] if r["verdict"] == "ok"]) if em else 0),
             "inconclusive": len(inconclusive),
+            "undecided_resource_limit": [n for n, _ in undecided],
             "known_findings_seen": kf_seen,
             "solver_s": round(sum(r.solver_s for r in results), 1),
             "checks_generated": sum(r.nchecks for r in results),
@@ -301,8 +314,8 @@ def main():
             coverage["solver_s"] = round(coverage["solver_s"] + em["solver_s"], 1)
         if not args.no_evidence and not args.only:
             core.write_evidence(prop, tier, seed, coverage, plan.get("assumptions", []), wall, violations)
-        log("== %s: %d/%d discharged, %d inconclusive, %d violation(s), %.0fs wall, solver %.0fs -> exit %d" % (
-            prop, coverage["discharged"], coverage["obligations"], len(inconclusive), violations, wall,
+        log("== %s: %d/%d discharged, %d not explored (resource limit), %d inconclusive, %d violation(s), %.0fs wall, solver %.0fs -> exit %d" % (
+            prop, coverage["discharged"], coverage["obligations"], len(undecided), len(inconclusive), violations, wall,
             coverage["solver_s"], exit_code))
     finally:
         if args.keep or exit_code != 0:
